@@ -1,0 +1,34 @@
+//go:build verif
+
+package rest
+
+// Contracts for property C02 (no document content is disclosed outside the reader's channels):
+// the channel filters of the _all_docs handler. Comment-only; read by /verif/engine.
+// In both closures availableChannels is the captured variable: nil for an administrator or a user who holds
+// the all-channels wildcard, otherwise the set of channels the user can see (own and inherited).
+
+//@ props C02
+
+// filterChannels (rows of the all-docs index): keeps, in place, the channels of the row that the user can see and
+// returns nil when there is none -- createRow then silently skips the document, so a listing does not reveal
+// documents that are in none of the user's channels.
+//@ func handler.handleAllDocs$2
+//@   safety on
+//@   modifies elems(channels)
+//@   ensures[admin-all]    availableChannels == nil ==> result == channels
+//@   ensures[visible-only] availableChannels != nil ==> (forall i int :: {result[i]} 0 <= i && i < len(result) ==> (result[i] in availableChannels))
+//@   ensures[of-the-doc]   availableChannels != nil ==> (forall i int :: {result[i]} 0 <= i && i < len(result) ==> old(elem(channels, now(result[i]))))
+//@   ensures[hidden-iff]   availableChannels != nil ==> (result == nil <==> (forall j int :: {old(channels[j])} 0 <= j && j < len(channels) ==> !(old(channels[j]) in availableChannels)))
+//@   loop 1 invariant[dst]     0 <= dst && dst <= #index + 1 && #index < len(channels) && availableChannels != nil
+//@   loop 1 invariant[kept]    forall k int :: {channels[k]} 0 <= k && k < dst ==> (channels[k] in availableChannels) && old(elem(channels, now(channels[k])))
+//@   loop 1 invariant[tail]    forall j int :: {channels[j]} #index < j && j < len(channels) ==> channels[j] == old(channels[j])
+//@   loop 1 invariant[none]    dst == 0 <==> (forall j int :: {old(channels[j])} 0 <= j && j <= #index ==> !(old(channels[j]) in availableChannels))
+
+// filterChannelSet (rows requested by explicit key): the channels of the document's current channel map that are
+// not marked removed and that the user can see; nil (-> the row is answered 403, without body) when there is none.
+//@ func handler.handleAllDocs$3
+//@   ensures[visible-only] forall i int :: {result[i]} 0 <= i && i < len(result) ==> (availableChannels == nil || (result[i] in availableChannels)) && (result[i] in channelMap) && channelMap[result[i]] == nil
+//@   ensures[hidden-iff]   result == nil <==> availableChannels != nil && (forall c string :: {c in channelMap} (c in channelMap) ==> !((c in availableChannels) && channelMap[c] == nil))
+//@   loop 1 invariant[visible] forall i int :: {result[i]} 0 <= i && i < len(result) ==> (availableChannels == nil || (result[i] in availableChannels)) && (result[i] in channelMap) && channelMap[result[i]] == nil
+//@   loop 1 invariant[none]    result == nil <==> availableChannels != nil && (forall c string :: {c in #visited} (c in #visited) ==> !((c in availableChannels) && channelMap[c] == nil))
+//@   loop 1 invariant[visited] forall c string :: {c in #visited} (c in #visited) ==> (c in channelMap)
